@@ -20,7 +20,26 @@ func zzPacket(P int) *rtp.Packet {
 		pkt.CSRC = append(pkt.CSRC, zzU32("csrc"))
 	}
 	pkt.Payload = zzBytes("payload", 0, P)
+	// padding: none, through Header.PaddingSize, or through the older Packet.PaddingSize
+	// field (pion's marshaller honours both)
+	switch zzConcretize(zzIntIn("padmode", 0, zzParam("PADMODES", 2))) {
+	case 1:
+		pkt.Header.Padding = true
+		pkt.Header.PaddingSize = uint8(zzIntIn("padsize", 1, 4))
+	case 2:
+		pkt.Header.Padding = true
+		pkt.PaddingSize = uint8(zzIntIn("padsize", 1, 4))
+	}
 	return pkt
+}
+
+// size of the packet on the wire: RTP header + CSRC list + payload + padding
+func zzWireSize(pkt *rtp.Packet) int {
+	pad := int(pkt.Header.PaddingSize)
+	if pad == 0 {
+		pad = int(pkt.PaddingSize)
+	}
+	return 12 + 4*len(pkt.CSRC) + len(pkt.Payload) + pad
 }
 
 // C18 + C01 (client write path, plain RTP): a packet either is refused with an
@@ -48,7 +67,7 @@ func ZzC18ClientWriteRTP() {
 	pkt := zzPacket(P)
 	want := *pkt
 	wantPayload := append([]byte(nil), pkt.Payload...)
-	size := 12 + 4*len(pkt.CSRC) + len(pkt.Payload)
+	size := zzWireSize(pkt)
 	err := cf.writePacketRTP(pkt, time.Time{})
 	n, derr := w.ZzDrain()
 	zzAssert(derr == nil, "queued writes run without error")
@@ -61,7 +80,7 @@ func ZzC18ClientWriteRTP() {
 		if len(sent) == 1 {
 			b := sent[0]
 			zzAssert(len(b) <= maxPS, "transmitted packet <= MaxPacketSize")
-			zzAssert(len(b) == size, "transmitted size = header + CSRC + payload")
+			zzAssert(len(b) == size, "transmitted size = header + CSRC + payload + padding")
 			var got rtp.Packet
 			uerr := got.Unmarshal(b)
 			zzAssert(uerr == nil, "transmitted bytes are a valid RTP packet")
